@@ -18,7 +18,7 @@ from pySDC.implementations.problem_classes.TestEquation_0D import testequation0d
 from pySDC.implementations.sweeper_classes.generic_implicit import generic_implicit
 from pySDC.implementations.transfer_classes.TransferMesh_NoCoarse import mesh_to_mesh as IdentityTransfer
 
-from vf.engine.explore import Outcome
+from vf.engine.explore import Outcome, ReplayDivergence
 
 RESTOL = 0.5
 CUR = None  # the running execution's context (one execution at a time per process)
@@ -570,6 +570,17 @@ class BlockRun:
         except ConvergenceError as e:
             outcome = ('convergence_error',)
             cur.convergence_error = str(e)
+        except (ReplayDivergence, KeyboardInterrupt):
+            raise
+        except Exception as e:  # noqa: the library under test crashed on an explored path
+            import traceback
+
+            tb = traceback.extract_tb(e.__traceback__)
+            where = next((f'{fr.filename.split("/pySDC/")[-1]}:{fr.name}' for fr in reversed(tb) if '/pySDC/' in fr.filename), 'harness')
+            if where == 'harness':
+                raise
+            cur.v('unexpected_exception', exc=type(e).__name__, msg=str(e)[:200], where=where)
+            outcome = ('exc', type(e).__name__)
         finally:
             CUR = None
         cur.stats = stats
